@@ -1,4 +1,6 @@
 import WsModel.Context
+import WsModel.Endpoint
+import WsModel.Spec.Rfc6455
 
 /-! Line-protocol driver: replays harness transcripts through the model and prints the model's
 observations in the same canonical form, so the two streams can be diffed. -/
@@ -330,6 +332,44 @@ def monPure (inp : List String) (implOut : List String) : List String :=
     let okAllowed := (allowed == "1") == allowedSpecB n
     if okBack && okAgain && okAllowed then ["mon C20 ok"]
     else [s!"mon C20 FAIL closecode-{if !okBack then "u16-roundtrip" else if !okAgain then "value-roundtrip" else "allowed"} code={n}"]
+  | ["hformat", bits, opc, mask, len], ["out", bytesHex, lenTok] =>
+    -- C18: the bytes the real encoder wrote, decoded by the independent RFC header reader
+    let bs := unhex bytesHex
+    let len := len.toNat?.getD 0
+    let opc := opc.toNat?.getD 255
+    let minimal := 2 + (if len < 126 then 0 else if len < 65536 then 2 else 8) + (if mask == "-" then 0 else 4)
+    match Spec.rawHeader bs with
+    | none => ["mon C18 FAIL hformat-undecodable"]
+    | some h =>
+      let bitsOk := bits.toList == [if h.fin then '1' else '0', if h.rsv / 4 % 2 == 1 then '1' else '0',
+                                   if h.rsv / 2 % 2 == 1 then '1' else '0', if h.rsv % 2 == 1 then '1' else '0']
+      let maskOk := showMaskOpt h.mask == mask
+      if !(bitsOk && h.opcode == opc && maskOk && h.len == len) then ["mon C18 FAIL hformat-roundtrip"]
+      else if !(h.size == bs.length && lenTok.toNat? == some bs.length) then ["mon C18 FAIL hformat-size"]
+      else if bs.length != minimal then ["mon C18 FAIL hformat-not-minimal"]
+      else ["mon C18 ok"]
+  | ["hparse", h], "out" :: rest =>
+    let bs := unhex h
+    match Spec.rawHeader bs, rest with
+    | none, ["incomplete", "0"] => ["mon C18 ok"]
+    | none, _ => ["mon C18 FAIL hparse-incomplete"]
+    | some rh, ["hdr", bits, opc, mask, len, used] =>
+      let bitsOk := bits.toList == [if rh.fin then '1' else '0', if rh.rsv / 4 % 2 == 1 then '1' else '0',
+                                   if rh.rsv / 2 % 2 == 1 then '1' else '0', if rh.rsv % 2 == 1 then '1' else '0']
+      if bitsOk && opc.toNat? == some rh.opcode && mask == showMaskOpt rh.mask && len.toNat? == some rh.len
+          && used.toNat? == some rh.size && Spec.isDefinedOpcode rh.opcode then ["mon C18 ok"]
+      else ["mon C18 FAIL hparse-header"]
+    | some rh, "err" :: _ => if Spec.isDefinedOpcode rh.opcode then ["mon C18 FAIL hparse-spurious-error"] else ["mon C18 ok"]
+    | some _, _ => ["mon C18 FAIL hparse-shape"]
+  | "fformat" :: _, ["out", a, la, b, lb, wire, _flags] =>
+    let (ba, bb) := (unhex a, unhex b)
+    if la.toNat? != some ba.length || lb.toNat? != some bb.length then ["mon C18 FAIL frame-len"]
+    else if unhex wire != ba ++ bb then ["mon C18 FAIL encoders-differ"]
+    else ["mon C18 ok"]
+  | ["mask", key, _align, h], ["out", got, canary] =>
+    let want := hex (applyMask (parseMask key) (unhex h))
+    if got == want && canary == "canary=ok" then ["mon C19 ok"]
+    else [s!"mon C19 FAIL mask-{if got != want then "xor" else "adjacent"} len={(unhex h).length}"]
   | _, _ => []
 
 structure St where
